@@ -198,4 +198,5 @@ SUBCHECKS = {"dedup": check_dedup}
 
 
 def run(ctx: Ctx):
-    drive(ctx, "dedup", cases(), check_dedup, ctx.n(6000, 300000))
+    # the harness is fully scripted: a failure that does not reproduce on re-execution can only come from the code under test
+    drive(ctx, "dedup", cases(), check_dedup, ctx.n(6000, 300000), flaky_is_violation=True)
